@@ -152,6 +152,8 @@ class Result:
 # ------------------------------------------------------------------------------------------ core engine
 CORE_CLASSES = {
     "C01": ["reuse", "mix", "ready", "disable"],
+    "C03": ["pings", "pings", "disable"],
+    "C04": ["chans", "chans", "mix"],
     "C02": ["ready", "fds", "mix", "timers"],
     "C05": ["timers", "mix"],
     "C06": ["reuse", "mix", "faults"],
@@ -276,6 +278,7 @@ def engine_core(prop, tier, seed, work):
 
 # ------------------------------------------------------------------------------- LoopCore model engines
 MODEL_CFGS = {
+    "C03": ["reuse"], "C04": [],
     "C01": ["reuse", "edge"], "C02": ["edge", "post"], "C05": ["timers"], "C06": ["reuse", "post"],
     "C07": ["edge", "timers"], "C08": ["reuse", "idle"], "C09": ["post"], "C13": ["idle"],
     "C14": ["life"], "C15": ["faults", "life"], "C16": ["edge", "reuse"],
@@ -382,6 +385,76 @@ def engine_sim(prop, tier, seed, work):
     return res
 
 
+# ------------------------------------------------------------------------------ concurrent protocol engines
+CONC_KINDS = {"C03": ["ping"], "C04": ["chan"], "C10": ["exec"], "C11": ["signal", "blockon"]}
+
+
+def conc_nontrivial(trace_path):
+    """scenarios with at least one context switch between two different threads inside an operation"""
+    out, cur, last = set(), None, None
+    with open(trace_path) as f:
+        for line in f:
+            if '"e":"reset"' in line:
+                cur, last = json.loads(line)["id"], None
+            elif '"e":"g"' in line and cur:
+                t = json.loads(line)["t"]
+                if last is not None and t != last:
+                    out.add(cur)
+                last = t
+    return out
+
+
+def run_conc(prop, scenarios, work, tag):
+    res = Result()
+    scn_path = os.path.join(work, tag + "_scn.ndjson")
+    tr_path = os.path.join(work, tag + "_trace.ndjson")
+    with open(scn_path, "w") as f:
+        for s in scenarios:
+            f.write(json.dumps(s) + "\n")
+    p = sh([BIN + "/drive_sched", scn_path, tr_path], timeout=2400, check=False)
+    if p.returncode != 0:
+        raise ToolError("drive_sched failed (%d):\n%s" % (p.returncode, p.stdout[-3000:]))
+    verdict, g, d = tlc_trace("ConcTrace", tr_path, work)
+    res.cmds.append("drive_sched %s && TRACE=%s tlc -config ConcTrace.cfg ConcTrace.tla" % (os.path.basename(scn_path), os.path.basename(tr_path)))
+    res.states += d
+    res.transitions += g
+    res.traces += verdict["scenarios"]
+    res.evaluations += len(scenarios)
+    res.nontrivial |= conc_nontrivial(tr_path)
+    byid = {s["id"]: s for s in scenarios}
+    spans = split_trace(tr_path)
+    per = collections.OrderedDict()
+    for v in sorted(verdict["viol"], key=lambda v: v["l"]):
+        per.setdefault(v["scn"], []).append(v)
+    for scn, vs in per.items():
+        mine = [v for v in vs if v["p"] == prop]
+        if not mine:
+            res.notes.append("scenario %s violates other properties: %s" % (scn, ",".join(sorted({v["p"] for v in vs}))))
+            continue
+        rp = write_replay(prop, byid.get(scn, {"id": scn}), tr_path, spans.get(scn, [1, 1]), vs, work)
+        rpj = json.load(open(rp))
+        rpj["engine"] = "conc"
+        json.dump(rpj, open(rp, "w"))
+        res.viol.append({"prop": prop, "scn": scn, "clauses": sorted({v["c"] for v in mine}), "replay": rp,
+                         "first_line": mine[0]["l"] - spans.get(scn, [1, 1])[0]})
+    for s in scenarios[:2]:
+        res.samples.append({"engine": "conc", "scenario": s})
+    return res
+
+
+def engine_conc(prop, tier, seed, work):
+    import gen_sched
+    res = Result()
+    for kind in CONC_KINDS[prop]:
+        n = {"ping": 150, "chan": 120, "exec": 150, "signal": 60, "blockon": 60}[kind]
+        if tier == "thorough":
+            n *= 12
+        scns = gen_sched.gen(seed, n, kind)
+        for i in range(0, len(scns), 400):
+            res.merge(run_conc(prop, scns[i:i + 400], work, "conc_%s_%d" % (kind, i // 400)))
+    return res
+
+
 # ------------------------------------------------------------------------------------------- evidence
 def write_evidence(prop, tier, seed, res, level, extra_assumptions=None):
     os.makedirs(ROOT + "/evidence", exist_ok=True)
@@ -416,6 +489,8 @@ def write_evidence(prop, tier, seed, res, level, extra_assumptions=None):
 ENGINES = {}
 for _p in CORE_CLASSES:
     ENGINES.setdefault(_p, []).extend([engine_model, engine_sim, engine_core])
+for _p in CONC_KINDS:
+    ENGINES.setdefault(_p, []).append(engine_conc)
 
 
 # engines that live in their own module tools/engine_<name>.py (loaded lazily: they import this module)
@@ -489,7 +564,10 @@ def main():
         res = Result()
         if "--replay" in args:
             rp = json.load(open(args[args.index("--replay") + 1]))
-            res.merge(run_core(prop, [rp["scenario"]], work, "replay"))
+            if rp.get("engine") == "conc":
+                res.merge(run_conc(prop, [rp["scenario"]], work, "replay"))
+            else:
+                res.merge(run_core(prop, [rp["scenario"]], work, "replay"))
         else:
             for eng in engines_for(prop):
                 res.merge(eng(prop, tier, seed, work))
